@@ -1,4 +1,4 @@
-//@@ unit props=C08,C07,C01,C03,C06
+//@@ unit props=C08,C07,C01,C03,C06,C02,C04
 // Unit lazyrange: from a stream of cells to the returned range in the four readers, and the header-row option.
 //
 // Real text under contract (verbatim): Xlsx/Xlsb `worksheet_range_ref` (filter + pad loops), Xlsx/Xlsb `worksheet_range` (cell-by-cell
@@ -453,12 +453,12 @@ pub proof fn axiom_string_from_str()
 {}
 
 //@@ impl src/datatype.rs "From<DataRef<'a>> for Data"
-//@@ fn src/datatype.rs "From<DataRef<'a>> for Data::from" props=C07 ret=d
+//@@ fn src/datatype.rs "From<DataRef<'a>> for Data::from" props=C07,C01,C03 ret=d
 //@@ sig
     ensures
-        //# C07.dataref_to_data_variant_preserving
+        //# C07,C01,C03.dataref_to_data_variant_preserving
         d == to_data(value),
-        //# C07.shared_string_becomes_string
+        //# C07,C01,C03.shared_string_becomes_string
         value is SharedString ==> d is String && d->String_0@ == value->SharedString_0@,
 //@@ body
         proof { axiom_string_from_str(); }
@@ -860,15 +860,15 @@ proof fn lemma_u32_product(a: int, b: int)
 // reader type VerifRs; the method never touches RS (it only calls worksheet_range_ref), so by parametricity the instance stands for all RS.
 pub struct VerifRs { _opaque: u8 }
 impl Xlsx<VerifRs> {
-//@@ fn src/xlsx/mod.rs "Reader<RS> for Xlsx<RS>::worksheet_range" props=C07 entry ret=r
+//@@ fn src/xlsx/mod.rs "Reader<RS> for Xlsx<RS>::worksheet_range" props=C07,C01,C08 entry ret=r
 //@@ sig
     ensures
-        //# C07.range_is_converted_ref
+        //# C07,C01,C08.range_is_converted_ref
         exists|rr: Result<Range<DataRef<'static>>, XlsxError>|
             #[trigger] lazy_result_ok(old(self).sheet_src(name@), old(self).naw(name@), old(self).hr(), rr) && converted_result(r, rr),
 //@@ closure 0
     -> (res: Data) ensures
-        //# C07.range_cell_conversion
+        //# C07,C01.range_cell_conversion
         res == to_data(v)
 //@@ before /Ok\(Range \{/
         proof {
@@ -997,15 +997,15 @@ impl Xlsx<VerifRs> {
 
 // R-mono, as for Xlsx
 impl Xlsb<VerifRs> {
-//@@ fn src/xlsb/mod.rs "Reader<RS> for Xlsb<RS>::worksheet_range" props=C07 entry ret=r
+//@@ fn src/xlsb/mod.rs "Reader<RS> for Xlsb<RS>::worksheet_range" props=C07,C03,C08 entry ret=r
 //@@ sig
     ensures
-        //# C07.range_is_converted_ref
+        //# C07,C03,C08.range_is_converted_ref
         exists|rr: Result<Range<DataRef<'static>>, XlsbError>|
             #[trigger] lazy_result_ok(old(self).sheet_src(name@), false, old(self).hr(), rr) && converted_result(r, rr),
 //@@ closure 0
     -> (res: Data) ensures
-        //# C07.range_cell_conversion
+        //# C07,C03.range_cell_conversion
         res == to_data(v)
 //@@ before /Ok\(Range \{/
         proof {
@@ -1120,20 +1120,20 @@ impl<RS> Ods<RS> {
         //# C07,C08.with_header_row_returns_self
         *final(r) == *final(self),
 //@@ end
-//@@ fn src/xls.rs "Reader<RS> for Xls<RS>::worksheet_range" props=C08 ret=r
+//@@ fn src/xls.rs "Reader<RS> for Xls<RS>::worksheet_range" props=C08,C07,C02,C06 ret=r
 //@@ sig
     ensures
         //# C07.eager_read_is_pure
         *final(self) == *old(self),
         //# C07.eager_unknown_sheet_is_error
         old(self).sheet_range(name) is None ==> r is Err && r->Err_0 is WorksheetNotFound,
-        //# C08.eager_window
+        //# C08,C02.eager_window
         old(self).sheet_range(name) is Some ==> r is Ok && eager_result_ok(old(self).hr(), old(self).sheet_range(name)->Some_0, r->Ok_0),
 //@@ body
         proof { axiom_string_keyed_map(self.sheets@, name); lemma_lawful_cells(); }
 //@@ closure 0
     -> (res: Range<Data>) ensures
-        //# C08.eager_takes_the_data_range
+        //# C08,C02.eager_takes_the_data_range
         res == r.range
 //@@ closure 1
     -> (res: XlsError) ensures
@@ -1156,14 +1156,14 @@ impl<RS> Ods<RS> {
         //# C07,C08.with_header_row_returns_self
         *final(r) == *final(self),
 //@@ end
-//@@ fn src/ods.rs "Reader<RS> for Ods<RS>::worksheet_range" props=C08 ret=r
+//@@ fn src/ods.rs "Reader<RS> for Ods<RS>::worksheet_range" props=C08,C07,C04,C06 ret=r
 //@@ sig
     ensures
         //# C07.eager_read_is_pure
         *final(self) == *old(self),
         //# C07.eager_unknown_sheet_is_error
         old(self).sheet_range(name) is None ==> r is Err && r->Err_0 is WorksheetNotFound,
-        //# C08.eager_window
+        //# C08,C04.eager_window
         old(self).sheet_range(name) is Some ==> r is Ok && eager_result_ok(old(self).hr(), old(self).sheet_range(name)->Some_0, r->Ok_0),
 //@@ body
         proof { axiom_string_keyed_map(self.sheets@, name); lemma_lawful_cells(); }
